@@ -235,6 +235,8 @@ def find_result_checked_before_use(ctx):
 
 def run(ctx):
     find_result_checked_before_use(ctx)
+    from .C09 import selection_index_is_within_the_selected_range
+    selection_index_is_within_the_selected_range(ctx)
     from .C15 import every_context_refreshed
     every_context_refreshed(ctx)          # a second advance after erase() skips a context (stale statistics) or steps past end()
     borrowed_fd_not_consumed(ctx)
